@@ -69,7 +69,8 @@ def model_strategy():
         'bw_method': st.one_of(st.sampled_from([None, 'scott', 'silverman', 1.0]), st.floats(0.05, 1.0)),
         'sample_size': st.one_of(st.none(), st.none(), st.integers(20, 200))})})
     trunc = st.fixed_dictionaries({'cls': st.just('TruncatedGaussian'), 'opts': st.one_of(
-        st.just({}), st.fixed_dictionaries({'lo_frac': st.floats(0.0, 2.0), 'hi_frac': st.floats(0.0, 2.0)}))})
+        st.just({}), st.fixed_dictionaries({'lo_frac': st.floats(0.0, 2.0), 'hi_frac': st.floats(0.0, 2.0)}),
+        st.fixed_dictionaries({'lo_frac': st.floats(0.0, 2.0), 'hi_frac': st.floats(0.0, 2.0), 'zero_bound': st.just(True)}))})
     wrapper = st.fixed_dictionaries({'cls': st.just('Univariate'), 'opts': st.one_of(
         st.fixed_dictionaries({'candidates': st.lists(st.sampled_from(M.FAST_CLASSES + ['StudentTUnivariate']), min_size=1, max_size=3, unique=True)}),
         st.fixed_dictionaries({'parametric': st.just('PARAMETRIC'), 'bounded': st.sampled_from(['BOUNDED', 'UNBOUNDED', 'SEMI_BOUNDED'])}),
@@ -85,7 +86,12 @@ def build_model(spec, data, random_state=None):
     if cls == 'TruncatedGaussian':
         if 'lo_frac' in opts:
             rng = float(np.ptp(data)) or 1.0
+            zero = opts.get('zero_bound')
             opts = {'minimum': float(np.min(data) - opts['lo_frac'] * rng - 1e-6 * rng), 'maximum': float(np.max(data) + opts['hi_frac'] * rng + 1e-6 * rng)}
+            if zero and np.min(data) > 0:
+                opts['minimum'] = 0.0          # a bound that is exactly zero (falsy) is a legitimate user bound
+            elif zero and np.max(data) < 0:
+                opts['maximum'] = 0.0
     if cls == 'Univariate':
         if 'candidates' in opts:
             opts['candidates'] = [M.uni_class(c) for c in opts['candidates']]
